@@ -997,6 +997,12 @@ func init() {
 			for _, p := range sc.Project.Procs {
 				if r.P(400) {
 					p.LogLocation = p.Name + ".log"
+					if p.Restart != "always" && p.Restart != "on_failure" && len(p.DependsOn) == 0 && !p.Disabled && r.P(500) {
+						// an observer reads the file the moment the process is reported ended
+						if ts := sc.Scripts[p.Token]; ts != nil && len(ts.Launches) > 0 && ts.Launches[0].LifeMs >= 0 && ts.Launches[0].StartErr == "" {
+							sc.Clients = append(sc.Clients, Client{Name: "fw-" + p.Name, Ops: []Op{{AtMs: 0, Op: "filewhendone", Arg: p.Name, Args: []string{p.LogLocation}}}})
+						}
+					}
 				}
 				ts := sc.Scripts[p.Token]
 				// one script per possible launch: the line ids must be unique across restarts
